@@ -23,8 +23,8 @@ from vlib import log
 POOL = {
     "valid": ["m0", "s0", "m1"],
     "invalid": ["badproof", "badpi"],
-    "pairA": ["badproof"],
-    "pairB": ["badpi"],
+    "pairA": ["pairA"],      # the same valid proof with its final opening witness shifted by +D ...
+    "pairB": ["pairB"],      # ... and by -D: opposite errors
     "malformed": ["garbage", "truncated", "trailing"],
     "badlen": ["shortpi", "badvk"],
 }
@@ -66,6 +66,14 @@ def run(tier):
         if i % 2:
             names[rng.randrange(n)] = rng.choice(["badproof", "badpi", "trailing", "shortpi", "badvk"])
         scen.append({"members": names, "mismatch": "none", "kinds": [], "expect": ""})
+    # the colluding pair at every pair of positions of batches of size 2..5 (the rest valid)
+    for n in range(2, 6 if tier == "quick" else 8):
+        for a in range(n):
+            for b in range(n):
+                if a != b:
+                    names = [["m0", "m1", "s0"][(a + b + j) % 3] for j in range(n)]
+                    names[a], names[b] = "pairA", "pairB"
+                    scen.append({"members": names, "mismatch": "none", "kinds": [], "expect": ""})
     chunks = [scen[i::vlib.NCPU] for i in range(vlib.NCPU)]
     jobs = []
     for i, ch in enumerate(chunks):
@@ -106,9 +114,9 @@ def run(tier):
         "samples": [scen[5], {k: batches[5][k] for k in ("members", "singles", "res", "racc", "guard_res", "acc")}],
         "exhaustive": tier == "quick",
     })
-    rep.assumptions += ["errors of invalid members are independent indeterminates except for the modelled colluding pair; "
-                        "real colluding proofs cannot be constructed, so the r-binding mechanism is observed on the "
-                        "batching transcript instead"]
+    rep.assumptions += ["errors of invalid members are independent indeterminates except for the colluding pair (the same valid proof "
+                        "with its final opening witness shifted by +D and -D: opposite errors, built by the driver); the r-binding "
+                        "mechanism is also observed on the batching transcript"]
     return rep.finish()
 
 
